@@ -81,6 +81,7 @@ pub trait ExNewBytes: crate::types::MutBytes {
 
     fn new_bytes() -> (r: Self) where Self: Sized
     ;
+    // NOTE: no length guarantee: `[u8; N]::new_bytes()` has N bytes, `Vec::new_bytes()` has none.
 }
 
 #[verifier::external_trait_specification]
@@ -100,11 +101,34 @@ pub trait ExNewByteArray<const LENGTH: usize>: crate::types::MutByteArray<LENGTH
 }
 
 #[verifier::external_trait_specification]
+#[verifier::external_trait_extension(ResizableSpec via ResizableSpecImpl)]
 pub trait ExResizableBytes {
     type ExternalTraitSpecificationFor: crate::types::ResizableBytes;
 
+    /// the bytes held, as seen through the ResizableBytes trait (which has no supertrait); for every type that is also
+    /// `Bytes` this is the same sequence as `bview()` — see axiom_rview_is_bview
+    spec fn rview(&self) -> Seq<u8>;
+
     fn resize(&mut self, new_len: usize, value: u8)
+        ensures
+            final(self).rview().len() == new_len,
+            forall|i: int| 0 <= i < new_len && i < old(self).rview().len() ==> #[trigger] final(self).rview()[i] == old(self).rview()[i],
+            forall|i: int| old(self).rview().len() <= i < new_len ==> #[trigger] final(self).rview()[i] == value,
     ;
+}
+
+/// ASSUMED law of the container implementations: the two trait views of one object are the same byte sequence.
+/// It holds by definition for the implementations verified here (`Vec<u8>`: both are `self@`); for the nightly
+/// heap / locked containers it is an assumption.
+pub broadcast axiom fn axiom_rview_is_bview<T: crate::types::Bytes + crate::types::ResizableBytes>(x: &T)
+    ensures
+        #[trigger] x.rview() == x.bview(),
+;
+
+impl ResizableSpecImpl for Vec<u8> {
+    open spec fn rview(&self) -> Seq<u8> {
+        self@
+    }
 }
 
 /// Uninterpreted fact: "these bytes were filled by a call to the operating-system RNG made on this path".
